@@ -1,9 +1,55 @@
 import PyamgV.Driver.Util
-/-! Driver ops for property C01 (line protocol). Op names are prefixed `c01_`. -/
+import PyamgV.Model.C01Solve
+import PyamgV.Model.C01Store
+/-! Driver ops for property C01 (line protocol). Op names are prefixed `c01_`.
+
+* `c01_solve_loop <maxiter> <tol> <normb> <r0,r1,...>`: the bookkeeping loop `PyamgV.solve`
+  (Proofs/SolveLoop.lean, theorem `solve_spec`) replayed over an observed residual-norm sequence.
+  Reply `status;cycles;history-length;index-of-returned-iterate`, or `short` when the loop would
+  have continued past the observations.
+* `c01_solve_py <maxiter> <tol> <normb> <r0,...> <oneLevel> <x0given> <residuals> <callback> <return_info>`:
+  the Python-level model `C01.solvePy` (theorems `solvePy_spec`, `solvePy_oneLevel`) on the same
+  instance; flags are `0/1`; `<residuals>` is `none` (no list passed), `-` (empty list) or the
+  list's content before the call.  Reply `x;info;residuals;callback-args` with `none` for an absent
+  info / list, positions for vectors, or `short`.
+* `c01_store <x0given> <oneLevel> <bConv> <xConv> <bRavelCopy> <xRavelCopy> <cycles>`: the store model
+  `C01.Store.solveStore` (theorem `solveStore_inputs_unchanged`) on the heap `b = buffer 0, x0 = buffer 1,
+  matrix = buffer 2`.  Reply `buffer of b as the cycles see it;buffer of the returned array;buffers of the
+  callback arguments;buffers written in place;1 if buffers 0..2 are unchanged else 0`. -/
 namespace PyamgV.Drv.C01
-open PyamgV PyamgV.Drv
+open PyamgV PyamgV.Drv PyamgV.C01
+
+def flag (s : String) : Bool := s = "1"
+def showOR : Option Rat → String
+  | some q => showRat q
+  | none => "short"
 
 def handle : List String → Option String
+  | ["c01_solve_loop", maxiter, tol, normb, seq] =>
+    let s := parseRats seq
+    match replayLoop (nat maxiter) (parseRat tol) (parseRat normb) s with
+    | none => some "none"
+    | some o =>
+      if o.x ≥ s.size then some "short"
+      else some s!"{o.status};{o.cb.length};{o.residuals.length};{o.x}"
+  | ["c01_solve_py", maxiter, tol, normb, seq, one, x0g, res, cb, ri] =>
+    let s := parseRats seq
+    let r0 : Option (List (Option Rat)) :=
+      if res = "none" then none else some ((parseRats res).toList.map some)
+    match replayPy (nat maxiter) (parseRat tol) (parseRat normb) s (flag one) (flag x0g) r0 (flag cb) (flag ri) with
+    | none => some "none"
+    | some p =>
+      if p.x ≥ s.size then some "short"
+      else
+        let info := match p.info with | some i => toString i | none => "none"
+        let rs := match p.residuals with | some l => sh (l.map showOR) | none => "none"
+        some s!"{p.x};{info};{rs};{showNats p.cb.toArray}"
+  | ["c01_store", x0g, one, bc, xc, brc, xrc, k] =>
+    let h0 : Store.Heap Nat := #[[10, 11], [20, 21], [30, 31, 32]]
+    let t := Store.solveStore (fun x b => (x.zip b).map (fun p => p.1 + p.2 + 1)) (fun b => b.map (· + 5))
+      (fun c => c.map (fun _ => 0)) id ⟨flag x0g, flag one, flag bc, flag xc, flag brc, flag xrc⟩ (nat k) h0 0 1
+    let same := (List.range 3).all (fun i => t.heap[i]? == h0[i]?)
+    some s!"{t.bUsed};{t.ret};{showNats t.cb.toArray};{showNats t.writes.toArray};{if same then 1 else 0}"
   | _ => none
 
 end PyamgV.Drv.C01
